@@ -310,6 +310,11 @@ def k2_shapes(tier):
                 'script': [(('when', 'daemon:block_hex_hashes', 2), ('query', 0, 'header_proof', (7, 8))),
                            (('when', 'daemon:block_hex_hashes', 2), ('query', 0, 'headers_proof', (5, 3, 8))),
                            ('reorg', 4, [cbB, cbC, cbA, cbB, cbC])]})
+    # a proof for a replaced height requested between the replacement block's advance and its flush (the in-memory
+    # counts already cover it, the hash file still holds the orphaned block's hashes)
+    out.append({'initial': INITIAL, 'deviations': 1, 'early': False, 'reorg_limit': 4,
+                'script': [(('when', 'bp:advance_block:result', 2), ('query', 0, 'id_from_pos_merkle', (5, 1))),
+                           ('reorg', 1, [payAB, cbB])]})
     # a transaction proof whose tx-hash read starts just before the undo (while the reorg range is being worked out) and
     # may be delivered (postponed) after the reorg handler cleared the caches, before the next notification
     out.append({'initial': INITIAL, 'deviations': 1, 'early': False, 'hold': True, 'reorg_limit': 4,
@@ -345,7 +350,7 @@ KERNELS = [
            encodes=['electrumx/lib/merkle.py:MerkleCache._extend_to', '_level_for', 'truncate', 'branch_and_root',
                     'electrumx/server/db.py:DB.backup_fs', 'header_branch_and_root', 'populate_header_merkle_cache',
                     'electrumx/server/session.py:SessionManager._handle_chain_reorgs', 'tx_hashes_at_blockheight'],
-           bounds='7 stories (x2 deviation budgets in thorough) on a 6..9-block start with reorg limit 4; interleaving '
+           bounds='8 stories (x2 deviation budgets in thorough) on a 6..9-block start with reorg limit 4; interleaving '
                   'as in C07',
            outside='as C07', assumptions=['as C07'], witnesses=1, split_depth=1),
 ]
